@@ -81,6 +81,11 @@ def cases(tier, rng):
                             if tier == 'quick' and (r not in (0, 1, n - 1) and (cc, how) != ('rand', 'iv')):
                                 continue
                             yield {'k': 'ctr', 'c': c, 'cc': cc, 'how': how, 'nb': nb, 'r': r}
+            if rep == 0 and c in ('aes128', 'des', 'tf512'):
+                nbig = 4096 // n
+                for mode in ('ecb', 'cbc'):
+                    yield {'k': mode, 'c': c, 'pad': 'pkcs7', 'nb': nbig, 'r': 3, 'ivc': 'rand'}          # long messages
+                yield {'k': 'ctr', 'c': c, 'cc': 'max-2', 'how': 'iv', 'nb': nbig, 'r': 3}
             for j in range(2 if tier == 'quick' else 8):
                 yield {'k': 'siblings', 'c': c, 'j': j, 'nb': 0, 'r': 0}
             if c in ('aes128', 'tf512'):
